@@ -638,8 +638,11 @@ class Representation:
         if compute_inverse:
             self.generators[self.invert_gen(generator)] = utils.invert(matrix)
 
-        # always update the dtype (we don't have a hierarchy for this)
-        self._dtype = matrix.dtype
+        # the dtype of the representation is the common dtype of all
+        # stored matrices (inverses of integer matrices are floats)
+        self._dtype = np.result_type(
+            *[mat.dtype for mat in self.generators.values()]
+        )
 
     def set_generator(self, generator, matrix, **kwargs):
         self._set_generator(generator,
